@@ -27,9 +27,11 @@ try:
     # demo: the cp + go test command recorded by the seeding agent (paths relative to the worktree, _seed/ -> src)
     demo = meta["demo_cmd"].split("#")[0].strip()
     demo = re.sub(r"_seed/m\d+/", src.rstrip("/") + "/", demo)
-    rc1, o1 = sh(demo); ran.append("demo with patch: rc=%d" % rc1)
+    def failed(rc, o):
+        return 1 if (rc != 0 or re.search(r"^(--- FAIL|FAIL\b|panic:)", o, re.M)) else 0
+    rc1, o1 = sh(demo); rc1 = failed(rc1, o1); ran.append("demo with patch: failed=%d" % rc1)
     sh("git apply -R %s" % patch)
-    rc2, o2 = sh(demo); ran.append("demo without patch: rc=%d" % rc2)
+    rc2, o2 = sh(demo); rc2 = failed(rc2, o2); ran.append("demo without patch: failed=%d" % rc2)
     ok = tests_pass and rc1 != 0 and rc2 == 0
     print("tests_pass=%s demo_with_patch_rc=%d demo_without_rc=%d => %s" % (tests_pass, rc1, rc2, "CONFIRMED" if ok else "NOT CONFIRMED"))
     if not tests_pass:
